@@ -232,6 +232,13 @@ func NewBase(ctx context.Context, spec Spec, log *Log, ctl *Control) (*Base, err
 			}
 			kn := fmt.Sprintf("k%d", as.KeyIdx)
 			pk := a.PublicKey().Marshal()
+			if ws.Type != "distributed" {
+				// the key of abstract name k<i> is derived from the secret the account was imported with - NOT from what a lookup by
+				// name returns (a lookup that resolves the name to a neighbour would otherwise teach the oracle the neighbour's key)
+				if sk, kerr := e2types.BLSPrivateKeyFromBytes(SecretKey(as.KeyIdx)); kerr == nil {
+					pk = sk.PublicKey().Marshal()
+				}
+			}
 			b.PubKeys[kn] = pk
 			b.Paths[kn] = path
 			b.Names.KeyName[hex.EncodeToString(pk)] = kn
